@@ -58,6 +58,10 @@ type keyRSASample struct {
 	label string
 	key   *rsa.PrivateKey
 	multi bool
+	// lenient: a key the standard library itself does not accept (Validate fails: public exponent of 2^31 or more).
+	// The DER formats may refuse it; in the transparent formats, where the standard library is not involved, it
+	// must come back equal.
+	lenient bool
 }
 
 // keyRSAFromPrimes builds a key from its primes with D = E^-1 mod phi; ok=false when E is not invertible.
@@ -155,14 +159,44 @@ func keyBuildRSASamples(ctx *Ctx) []*keyRSASample {
 	p342a, p342b, p342c := keyDetPrime(r, 342), keyDetPrime(r, 342), keyDetPrime(r, 342)
 	k, ok = keyRSAFromPrimes(65537, true, p342a, p342b, p342c)
 	add("r3primes", k, ok)
+	// largest public exponent the standard library accepts (2^31-1, a prime), and the smallest exponents
+	for _, pq := range [][2]*big.Int{{p512a, p512b}, {p512a, q80}, {p512b, qff}} {
+		if k, ok = keyRSAFromPrimes(1<<31-1, true, pq[0], pq[1]); ok {
+			add("r1024-eMax", k, ok)
+			break
+		}
+	}
+	for _, pq := range [][2]*big.Int{{p512a, p512b}, {p512a, q80}, {p512b, qff}, {p512a, q505}} {
+		if k, ok = keyRSAFromPrimes(3, true, pq[0], pq[1]); ok {
+			add("r-e3", k, ok)
+			break
+		}
+	}
+	// 2048 bits in every tier; 3072 and 4096 bits, four primes, in the thorough one
+	p1024a, p1024b := keyDetPrime(r, 1024), keyDetPrime(r, 1024)
+	k, ok = keyRSAFromPrimes(65537, true, p1024a, p1024b)
+	add("r2048", k, ok)
 	if ctx.Thor {
-		p1024a, p1024b := keyDetPrime(r, 1024), keyDetPrime(r, 1024)
-		k, ok = keyRSAFromPrimes(65537, true, p1024a, p1024b)
-		add("r2048", k, ok)
 		k, ok = keyRSAFromPrimes(65537, true, p1024a, keyPrimeForTop(r, p1024a, 2048, 0x80))
 		add("r2048-n80", k, ok)
 		k, ok = keyRSAFromPrimes(17, true, keyDetPrime(r, 384), keyDetPrime(r, 384))
 		add("r768-e17", k, ok)
+		k, ok = keyRSAFromPrimes(65537, true, keyDetPrime(r, 1536), keyDetPrime(r, 1536))
+		add("r3072", k, ok)
+		k, ok = keyRSAFromPrimes(65537, true, keyDetPrime(r, 2048), keyDetPrime(r, 2048))
+		add("r4096", k, ok)
+		k, ok = keyRSAFromPrimes(65537, true, keyDetPrime(r, 512), keyDetPrime(r, 512), keyDetPrime(r, 512), keyDetPrime(r, 512))
+		add("r4primes", k, ok)
+	}
+	// public exponent beyond what the standard library accepts (Go `int` goes up to 2^63-1)
+	for _, e := range []int{1<<31 + 11, 1<<31 + 1, 1<<62 + 57, 1<<62 + 1} {
+		for _, pq := range [][2]*big.Int{{p512a, p512b}, {p512a, q80}} {
+			k, ok = keyRSAFromPrimes(e, false, pq[0], pq[1])
+			if ok {
+				out = append(out, &keyRSASample{label: fmt.Sprintf("r1024-eBig%d", e), key: k, lenient: true})
+				break
+			}
+		}
 	}
 	return out
 }
